@@ -49,7 +49,7 @@ static void* vp_body_vptr;
 void vp_init_sample() {
   graph& g = vp_graph2_mem.x;
   new (&g.my_wait_context_vertex) d1::wait_context_vertex();
-  g.my_task_arena = reinterpret_cast<tbb::task_arena*>(vp_arena_tok); g.my_is_active = true;
+  g.my_task_arena = &vp_arena_tok.x; g.my_is_active = true;
   d1::small_object_allocator a{};
   new (&vp_sample_body.x) body_task_t(g, a, static_cast<input_base_t&>(F()), 0);
   vp_body_vptr = *reinterpret_cast<void**>(&vp_sample_body.x);
